@@ -57,6 +57,8 @@ pub struct In {
     pub n: usize,
     pub reads: usize,
     pub fatal_seen: bool,
+    /// bounded harnesses only: paths with more sub-parser calls than this are cut off (assume)
+    pub cap: usize,
 }
 impl In {
     pub fn any() -> In {
@@ -64,9 +66,12 @@ impl In {
         vs::assume(len <= 1000);
         let pos = vs::usize();
         vs::assume(pos <= len);
-        In { pos, len, log: [Call::default(); MAXLOG], n: 0, reads: 0, fatal_seen: false }
+        In { pos, len, log: [Call::default(); MAXLOG], n: 0, reads: 0, fatal_seen: false, cap: MAXLOG }
     }
     fn push(&mut self, c: Call) {
+        if self.cap < MAXLOG {
+            vs::assume(self.n < self.cap);
+        }
         assert!(self.n < MAXLOG, "harness log too small");
         self.log[self.n] = c;
         if c.out == FATAL {
@@ -275,4 +280,862 @@ harness!(or_two, 2, {
     }
     reach!(r.is_ok() && input.n == 2);
     reach!(is_soft(&r));
+});
+
+//# harness or_boxed tier=quick label=bounded(alternatives<=4) props=C20 fn=rusty_pc/src/or.rs::OrParser::parse
+harness!(or_boxed, 10, {
+    // OrParser undoes each failed alternative itself, so alternatives 1..n-1 may be non-backtracking
+    let mut input = In::any();
+    let p0 = input.pos;
+    let n = 2 + vs::choice(3) as usize; // 2..=4 alternatives
+    let bt = [vs::bool(), vs::bool(), vs::bool(), vs::bool()];
+    let mut v: Vec<Box<dyn Parser<In, u8, Output = u8, Error = E>>> = Vec::new();
+    let mut i = 0;
+    while i < n {
+        v.push(Box::new(stub(i as u8 + 1, bt[i])));
+        i += 1;
+    }
+    let mut p = OrParser::new(v);
+    let r = p.parse(&mut input);
+    common(&input, p0, &r);
+    // every alternative that ran started from the original position, in order, and all but the
+    // last one failed softly
+    assert!(input.n >= 1 && input.n <= n);
+    let mut k = 0;
+    while k < MAXLOG {
+        if k < input.n {
+            let c = input.log[k];
+            assert!(c.who == k as u8 + 1, "alternatives are tried in order");
+            assert!(c.start == p0, "every alternative starts from the original position");
+            if k + 1 < input.n {
+                assert!(c.out == SOFT, "a later alternative is tried only after a soft failure");
+            }
+        }
+        k += 1;
+    }
+    let last = input.log[input.n - 1];
+    match last.out {
+        OK => assert!(r == Ok(last.val) && input.pos == last.end, "choice returns the first success"),
+        SOFT => {
+            assert!(input.n == n, "soft failure only after every alternative failed softly");
+            assert!(r == Err(E { fatal: false, tag: last.val }));
+            if bt[n - 1] {
+                assert!(input.pos == p0, "soft failure of choice leaves the input where it started");
+            }
+        }
+        _ => assert!(r == Err(E { fatal: true, tag: last.val })),
+    }
+    reach!(r.is_ok() && input.n == 3);
+    reach!(is_soft(&r) && n == 4);
+    reach!(is_fatal(&r) && input.n == 2);
+});
+
+// ---------------------------------------------------------------------------------------------
+// filter / filter_map / peek
+// ---------------------------------------------------------------------------------------------
+//# harness filter_contract tier=quick label=complete props=C20 fn=rusty_pc/src/filter.rs::FilterParser::parse
+harness!(filter_contract, 2, {
+    let mut input = In::any();
+    let p0 = input.pos;
+    let bt = vs::bool();
+    let threshold = vs::u8();
+    let mut p = stub(1, bt).filter(move |v: &u8| *v >= threshold);
+    let r = p.parse(&mut input);
+    common(&input, p0, &r);
+    let c = input.log[0];
+    assert!(input.n == 1 && c.start == p0);
+    match c.out {
+        OK => {
+            if c.val >= threshold {
+                assert!(r == Ok(c.val) && input.pos == c.end);
+            } else {
+                assert!(r == Err(E::default()), "rejected value gives the default (soft) error");
+                assert!(input.pos == p0, "soft failure under filter leaves the input where it started");
+            }
+        }
+        SOFT => {
+            assert!(r == Err(E { fatal: false, tag: c.val }));
+            if bt {
+                assert!(input.pos == p0);
+            }
+        }
+        _ => assert!(r == Err(E { fatal: true, tag: c.val })),
+    }
+    reach!(r.is_ok());
+    reach!(c.out == OK && is_soft(&r));
+});
+
+//# harness filter_map_contract tier=quick label=complete props=C20 fn=rusty_pc/src/filter_map.rs::FilterMapParser::parse
+harness!(filter_map_contract, 2, {
+    let mut input = In::any();
+    let p0 = input.pos;
+    let threshold = vs::u8();
+    let mut p = Stub::new(1).filter_map(move |v: &u8| if *v >= threshold { Some(*v as u16 + 1000) } else { None });
+    let r = p.parse(&mut input);
+    common(&input, p0, &r);
+    let c = input.log[0];
+    assert!(input.n == 1 && c.start == p0);
+    match c.out {
+        OK => {
+            if c.val >= threshold {
+                assert!(r == Ok(c.val as u16 + 1000) && input.pos == c.end);
+            } else {
+                assert!(r == Err(E::default()));
+                assert!(input.pos == p0, "soft failure under filter_map leaves the input where it started");
+            }
+        }
+        SOFT => assert!(r == Err(E { fatal: false, tag: c.val }) && input.pos == p0),
+        _ => assert!(r == Err(E { fatal: true, tag: c.val })),
+    }
+    reach!(r.is_ok());
+    reach!(c.out == OK && is_soft(&r));
+});
+
+//# harness peek_contract tier=quick label=complete props=C20 fn=rusty_pc/src/peek.rs::PeekParser::parse
+harness!(peek_contract, 2, {
+    let mut input = In::any();
+    let p0 = input.pos;
+    let bt = vs::bool();
+    let mut p = stub(1, bt).peek();
+    let r = p.parse(&mut input);
+    common(&input, p0, &r);
+    let c = input.log[0];
+    assert!(input.n == 1 && c.start == p0);
+    match c.out {
+        OK => assert!(r == Ok(c.val) && input.pos == p0, "peek never consumes"),
+        SOFT => {
+            assert!(r == Err(E { fatal: false, tag: c.val }));
+            if bt {
+                assert!(input.pos == p0, "soft failure under peek leaves the input where it started");
+            }
+        }
+        _ => assert!(r == Err(E { fatal: true, tag: c.val })),
+    }
+    reach!(r.is_ok() && c.end > p0);
+});
+
+// ---------------------------------------------------------------------------------------------
+// optional / default
+// ---------------------------------------------------------------------------------------------
+//# harness to_option_contract tier=quick label=complete props=C20 fn=rusty_pc/src/to_option.rs::ToOptionParser
+harness!(to_option_contract, 2, {
+    let mut input = In::any();
+    let p0 = input.pos;
+    let bt = vs::bool();
+    let mut p = stub(1, bt).to_option();
+    let r = p.parse(&mut input);
+    common(&input, p0, &r);
+    let c = input.log[0];
+    assert!(input.n == 1 && c.start == p0);
+    assert!(!is_soft(&r), "optional never fails softly");
+    match c.out {
+        OK => assert!(r == Ok(Some(c.val)) && input.pos == c.end),
+        SOFT => {
+            assert!(r == Ok(None));
+            if bt {
+                assert!(input.pos == p0, "soft failure under optional leaves the input where it started");
+            }
+        }
+        _ => assert!(r == Err(E { fatal: true, tag: c.val })),
+    }
+    reach!(r == Ok(None));
+});
+
+//# harness or_default_contract tier=quick label=complete props=C20 fn=rusty_pc/src/or_default.rs::OrDefaultParser
+harness!(or_default_contract, 2, {
+    let mut input = In::any();
+    let p0 = input.pos;
+    let bt = vs::bool();
+    let mut p = stub(1, bt).or_default();
+    let r = p.parse(&mut input);
+    common(&input, p0, &r);
+    let c = input.log[0];
+    assert!(input.n == 1 && c.start == p0);
+    assert!(!is_soft(&r), "default never fails softly");
+    match c.out {
+        OK => assert!(r == Ok(c.val) && input.pos == c.end),
+        SOFT => {
+            assert!(r == Ok(0u8));
+            if bt {
+                assert!(input.pos == p0, "soft failure under default leaves the input where it started");
+            }
+        }
+        _ => assert!(r == Err(E { fatal: true, tag: c.val })),
+    }
+    reach!(c.out == SOFT);
+});
+
+// ---------------------------------------------------------------------------------------------
+// surround
+// ---------------------------------------------------------------------------------------------
+//# harness surround_optional tier=quick label=complete props=C20 fn=rusty_pc/src/surround.rs::SurroundParser::parse
+harness!(surround_optional, 2, {
+    let mut input = In::any();
+    let p0 = input.pos;
+    let (lbt, mbt, rbt) = (vs::bool(), vs::bool(), vs::bool());
+    let mut p = surround(stub(1, lbt), stub(2, mbt), stub(3, rbt), SurroundMode::Optional);
+    let r = p.parse(&mut input);
+    common(&input, p0, &r);
+    let l = input.log[0];
+    assert!(l.who == 1 && l.start == p0);
+    if l.out == FATAL {
+        assert!(input.n == 1 && r == Err(E { fatal: true, tag: l.val }));
+    } else {
+        // the left boundary is optional: the content is attempted either way, where the boundary ended
+        let m = input.log[1];
+        assert!(input.n >= 2 && m.who == 2 && m.start == l.end);
+        match m.out {
+            OK => {
+                let rr = input.log[2];
+                assert!(input.n == 3 && rr.who == 3 && rr.start == m.end);
+                if rr.out == FATAL {
+                    assert!(r == Err(E { fatal: true, tag: rr.val }));
+                } else {
+                    assert!(r == Ok(m.val), "the result is the content");
+                    assert!(input.pos == rr.end);
+                }
+            }
+            SOFT => {
+                assert!(input.n == 2 && r == Err(E { fatal: false, tag: m.val }));
+                assert!(input.pos == p0, "soft failure under optional surround leaves the input where it started");
+            }
+            _ => assert!(input.n == 2 && r == Err(E { fatal: true, tag: m.val })),
+        }
+    }
+    reach!(r.is_ok() && l.out == SOFT);
+    reach!(is_soft(&r) && l.out == OK && l.end > p0);
+});
+
+//# harness surround_mandatory tier=quick label=complete props=C20 fn=rusty_pc/src/surround.rs::SurroundParser::parse
+harness!(surround_mandatory, 2, {
+    let mut input = In::any();
+    let p0 = input.pos;
+    let lbt = vs::bool();
+    let mut p = surround(stub(1, lbt), Stub::any_bt(2), Stub::any_bt(3), SurroundMode::Mandatory);
+    let r = p.parse(&mut input);
+    common(&input, p0, &r);
+    let l = input.log[0];
+    assert!(l.who == 1 && l.start == p0);
+    if l.out != OK {
+        // missing left boundary: soft error, nothing else is attempted
+        assert!(input.n == 1 && r == Err(E { fatal: l.out == FATAL, tag: l.val }));
+        if l.out == SOFT && lbt {
+            assert!(input.pos == p0);
+        }
+    } else {
+        let m = input.log[1];
+        assert!(input.n >= 2 && m.who == 2 && m.start == l.end);
+        if m.out != OK {
+            assert!(input.n == 2 && r == Err(E { fatal: true, tag: m.val }), "missing content after the boundary is fatal");
+        } else {
+            let rr = input.log[2];
+            assert!(input.n == 3 && rr.who == 3 && rr.start == m.end);
+            if rr.out != OK {
+                assert!(r == Err(E { fatal: true, tag: rr.val }), "missing right boundary is fatal");
+            } else {
+                assert!(r == Ok(m.val) && input.pos == rr.end);
+            }
+        }
+    }
+    reach!(r.is_ok());
+    reach!(is_soft(&r));
+    reach!(is_fatal(&r) && !input.any_fatal());
+});
+
+// ---------------------------------------------------------------------------------------------
+// seqN: the first may fail softly, every later error becomes fatal
+// ---------------------------------------------------------------------------------------------
+fn seq_check(input: &In, p0: usize, n: usize, r: &Result<u16, E>) {
+    let first = input.log[0];
+    assert!(first.who == 1 && first.start == p0);
+    if first.out != OK {
+        assert!(input.n == 1);
+        assert!(*r == Err(E { fatal: first.out == FATAL, tag: first.val }), "the first parser's error is returned as is");
+        return;
+    }
+    let mut k = 1;
+    let mut sum: u16 = first.val as u16;
+    while k < 6 {
+        if k < n && k < input.n {
+            let c = input.log[k];
+            assert!(c.who == k as u8 + 1 && c.start == input.log[k - 1].end, "parsers run in order, each where the previous ended");
+            if c.out != OK {
+                assert!(input.n == k + 1, "nothing runs after a failure");
+                assert!(*r == Err(E { fatal: true, tag: c.val }), "errors after the first parser are fatal");
+                return;
+            }
+            sum += c.val as u16;
+        }
+        k += 1;
+    }
+    assert!(input.n == n);
+    assert!(*r == Ok(sum), "the mapper receives every value, in order");
+    assert!(input.pos == input.log[n - 1].end);
+}
+
+//# harness seq2_contract tier=quick label=complete props=C20 fn=rusty_pc/src/seq.rs::Seq2::parse
+harness!(seq2_contract, 7, {
+    let mut input = In::any();
+    let p0 = input.pos;
+    let mut p = seq2(Stub::any_bt(1), Stub::any_bt(2), |a: u8, b: u8| a as u16 + b as u16);
+    let r = p.parse(&mut input);
+    common(&input, p0, &r);
+    seq_check(&input, p0, 2, &r);
+    reach!(r.is_ok());
+    reach!(is_fatal(&r) && !input.any_fatal());
+});
+
+//# harness seq3_contract tier=quick label=complete props=C20 fn=rusty_pc/src/seq.rs::Seq3::parse
+harness!(seq3_contract, 7, {
+    let mut input = In::any();
+    let p0 = input.pos;
+    let mut p = seq3(Stub::any_bt(1), Stub::any_bt(2), Stub::any_bt(3), |a: u8, b: u8, c: u8| a as u16 + b as u16 + c as u16);
+    let r = p.parse(&mut input);
+    common(&input, p0, &r);
+    seq_check(&input, p0, 3, &r);
+    reach!(r.is_ok());
+    reach!(is_soft(&r));
+});
+
+//# harness seq4_contract tier=quick label=complete props=C20 fn=rusty_pc/src/seq.rs::Seq4::parse
+harness!(seq4_contract, 7, {
+    let mut input = In::any();
+    let p0 = input.pos;
+    let mut p = seq4(Stub::any_bt(1), Stub::any_bt(2), Stub::any_bt(3), Stub::any_bt(4), |a: u8, b: u8, c: u8, d: u8| {
+        a as u16 + b as u16 + c as u16 + d as u16
+    });
+    let r = p.parse(&mut input);
+    common(&input, p0, &r);
+    seq_check(&input, p0, 4, &r);
+    reach!(r.is_ok());
+});
+
+//# harness seq5_contract tier=quick label=complete props=C20 fn=rusty_pc/src/seq.rs::Seq5::parse
+harness!(seq5_contract, 7, {
+    let mut input = In::any();
+    let p0 = input.pos;
+    let mut p = seq5(
+        Stub::any_bt(1),
+        Stub::any_bt(2),
+        Stub::any_bt(3),
+        Stub::any_bt(4),
+        Stub::any_bt(5),
+        |a: u8, b: u8, c: u8, d: u8, e: u8| a as u16 + b as u16 + c as u16 + d as u16 + e as u16,
+    );
+    let r = p.parse(&mut input);
+    common(&input, p0, &r);
+    seq_check(&input, p0, 5, &r);
+    reach!(r.is_ok());
+});
+
+//# harness seq6_contract tier=quick label=complete props=C20 fn=rusty_pc/src/seq.rs::Seq6::parse
+harness!(seq6_contract, 7, {
+    let mut input = In::any();
+    let p0 = input.pos;
+    let mut p = seq6(
+        Stub::any_bt(1),
+        Stub::any_bt(2),
+        Stub::any_bt(3),
+        Stub::any_bt(4),
+        Stub::any_bt(5),
+        Stub::any_bt(6),
+        |a: u8, b: u8, c: u8, d: u8, e: u8, f: u8| a as u16 + b as u16 + c as u16 + d as u16 + e as u16 + f as u16,
+    );
+    let r = p.parse(&mut input);
+    common(&input, p0, &r);
+    seq_check(&input, p0, 6, &r);
+    reach!(r.is_ok());
+    reach!(is_fatal(&r) && input.n == 6);
+});
+
+// ---------------------------------------------------------------------------------------------
+// then_with_in_context
+// ---------------------------------------------------------------------------------------------
+//# harness then_with_contract tier=quick label=complete props=C20 fn=rusty_pc/src/then_with.rs::ThenWithContextParser::parse
+harness!(then_with_contract, 2, {
+    let mut input = In::any();
+    let p0 = input.pos;
+    let lbt = vs::bool();
+    let mut p = stub(1, lbt).then_with_in_context(Stub::any_bt(2), |a: u8, b: u8| (a, b));
+    let r = p.parse(&mut input);
+    common(&input, p0, &r);
+    let l = input.log[0];
+    assert!(l.who == 1 && l.start == p0);
+    if l.out != OK {
+        assert!(input.n == 1 && r == Err(E { fatal: l.out == FATAL, tag: l.val }));
+        if l.out == SOFT && lbt {
+            assert!(input.pos == p0);
+        }
+    } else {
+        let rr = input.log[1];
+        assert!(input.n == 2 && rr.who == 2 && rr.start == l.end);
+        assert!(rr.ctx == l.val, "the right side parses in the context of the left side's value");
+        if rr.out == OK {
+            assert!(r == Ok((l.val, rr.val)) && input.pos == rr.end);
+        } else {
+            assert!(r == Err(E { fatal: true, tag: rr.val }), "right-side errors are always fatal");
+        }
+    }
+    reach!(r.is_ok() && l.val == 7);
+    reach!(is_fatal(&r) && !input.any_fatal());
+});
+
+// ---------------------------------------------------------------------------------------------
+// and_then / and_then_err / map / map_to_unit
+// ---------------------------------------------------------------------------------------------
+//# harness and_then_contract tier=quick label=complete props=C20 fn=rusty_pc/src/and_then.rs::AndThenParser
+harness!(and_then_contract, 2, {
+    let mut input = In::any();
+    let p0 = input.pos;
+    let bt = vs::bool();
+    let fatal_on_odd = vs::bool();
+    let mut p = stub(1, bt).and_then(move |v: u8| if v % 2 == 0 { Ok(v as u16 * 2) } else { Err(E { fatal: fatal_on_odd, tag: v }) });
+    let r = p.parse(&mut input);
+    common(&input, p0, &r);
+    let c = input.log[0];
+    assert!(input.n == 1 && c.start == p0);
+    match c.out {
+        OK => {
+            // documented: no rewind even if the mapper fails softly
+            assert!(input.pos == c.end);
+            if c.val % 2 == 0 {
+                assert!(r == Ok(c.val as u16 * 2));
+            } else {
+                assert!(r == Err(E { fatal: fatal_on_odd, tag: c.val }));
+            }
+        }
+        SOFT => assert!(r == Err(E { fatal: false, tag: c.val })),
+        _ => assert!(r == Err(E { fatal: true, tag: c.val })),
+    }
+    reach!(r.is_ok());
+    reach!(c.out == OK && is_soft(&r));
+});
+
+//# harness and_then_err_contract tier=quick label=complete props=C20 fn=rusty_pc/src/and_then_err.rs::AndThenErrParser
+harness!(and_then_err_contract, 2, {
+    let mut input = In::any();
+    let p0 = input.pos;
+    let mut p = Stub::new(1).and_then_err(|e: E| if e.tag % 2 == 0 { Ok(e.tag) } else { Err(E { fatal: true, tag: e.tag }) });
+    let r = p.parse(&mut input);
+    common(&input, p0, &r);
+    let c = input.log[0];
+    assert!(input.n == 1 && c.start == p0);
+    match c.out {
+        OK => assert!(r == Ok(c.val) && input.pos == c.end),
+        SOFT => {
+            // only soft errors reach the mapper
+            if c.val % 2 == 0 {
+                assert!(r == Ok(c.val));
+            } else {
+                assert!(r == Err(E { fatal: true, tag: c.val }));
+            }
+            assert!(input.pos == p0);
+        }
+        _ => assert!(r == Err(E { fatal: true, tag: c.val }), "a fatal error never reaches the soft-error mapper"),
+    }
+    reach!(c.out == SOFT && r.is_ok());
+});
+
+//# harness map_contract tier=quick label=complete props=C20 fn=rusty_pc/src/map.rs::MapParser
+harness!(map_contract, 2, {
+    let mut input = In::any();
+    let p0 = input.pos;
+    let unit = vs::bool();
+    let c;
+    if unit {
+        let r = Stub::any_bt(1).map_to_unit().parse(&mut input);
+        common(&input, p0, &r);
+        c = input.log[0];
+        match c.out {
+            OK => assert!(r == Ok(()) && input.pos == c.end),
+            _ => assert!(r == Err(E { fatal: c.out == FATAL, tag: c.val })),
+        }
+    } else {
+        let r = Stub::any_bt(1).map(|v: u8| v as u16 + 1).parse(&mut input);
+        common(&input, p0, &r);
+        c = input.log[0];
+        match c.out {
+            OK => assert!(r == Ok(c.val as u16 + 1) && input.pos == c.end),
+            _ => assert!(r == Err(E { fatal: c.out == FATAL, tag: c.val }), "errors pass through map unchanged"),
+        }
+    }
+    assert!(input.n == 1 && c.start == p0);
+    reach!(unit && c.out == OK);
+    reach!(!unit && c.out == SOFT);
+});
+
+// ---------------------------------------------------------------------------------------------
+// error mappers
+// ---------------------------------------------------------------------------------------------
+//# harness soft_err_mappers tier=quick label=complete props=C20 fn=rusty_pc/src/map_soft_err.rs::MapSoftErrParser
+harness!(soft_err_mappers, 2, {
+    let mut input = In::any();
+    let p0 = input.pos;
+    let which = vs::choice(4);
+    let repl = E { fatal: vs::bool(), tag: 200 };
+    let r = match which {
+        0 => Stub::new(1).with_soft_err(repl).parse(&mut input),
+        1 => {
+            vs::assume(repl.fatal);
+            Stub::new(1).or_fail(repl).parse(&mut input)
+        }
+        2 => Stub::new(1).with_expected_message(200u8).parse(&mut input),
+        _ => Stub::new(1).or_expected(200u8).parse(&mut input),
+    };
+    common(&input, p0, &r);
+    let c = input.log[0];
+    assert!(input.n == 1 && c.start == p0);
+    match c.out {
+        OK => assert!(r == Ok(c.val) && input.pos == c.end),
+        SOFT => {
+            let want = match which {
+                0 | 1 => repl,
+                2 => E { fatal: false, tag: 200 },
+                _ => E { fatal: true, tag: 200 },
+            };
+            assert!(r == Err(want), "the soft error is replaced by the given error");
+            assert!(input.pos == p0);
+        }
+        _ => assert!(r == Err(E { fatal: true, tag: c.val }), "a fatal error is returned as is"),
+    }
+    reach!(which == 3 && c.out == SOFT);
+    reach!(which == 0 && c.out == FATAL);
+});
+
+//# harness to_fatal_contract tier=quick label=complete props=C20 fn=rusty_pc/src/to_fatal.rs::ToFatalParser
+harness!(to_fatal_contract, 2, {
+    let mut input = In::any();
+    let p0 = input.pos;
+    let r = Stub::any_bt(1).to_fatal().parse(&mut input);
+    common(&input, p0, &r);
+    let c = input.log[0];
+    assert!(input.n == 1 && c.start == p0);
+    match c.out {
+        OK => assert!(r == Ok(c.val) && input.pos == c.end),
+        _ => assert!(r == Err(E { fatal: true, tag: c.val }), "every error comes out fatal, otherwise unchanged"),
+    }
+    assert!(!is_soft(&r));
+    reach!(c.out == SOFT);
+});
+
+//# harness map_fatal_err_contract tier=quick label=complete props=C20 fn=rusty_pc/src/map_fatal_err.rs::MapFatalErrParser::parse
+harness!(map_fatal_err_contract, 2, {
+    // documentation of `Parser::map_fatal_err`: success as is; soft error as is; fatal error replaced
+    let mut input = In::any();
+    let p0 = input.pos;
+    let repl = E { fatal: true, tag: 200 };
+    let r = Stub::new(1).map_fatal_err(repl).parse(&mut input);
+    common(&input, p0, &r);
+    let c = input.log[0];
+    assert!(input.n == 1 && c.start == p0);
+    match c.out {
+        OK => assert!(r == Ok(c.val) && input.pos == c.end),
+        SOFT => {
+            assert!(r == Err(E { fatal: false, tag: c.val }), "a soft error is returned as is");
+            assert!(input.pos == p0);
+        }
+        _ => assert!(r == Err(repl), "a fatal error is replaced by the given error"),
+    }
+    reach!(c.out == SOFT);
+    reach!(c.out == FATAL);
+});
+
+// ---------------------------------------------------------------------------------------------
+// flatten / no_context / map_ctx / boxed / lazy / iif_ctx / ctx_parser / supplier
+// ---------------------------------------------------------------------------------------------
+/// a parser whose output is itself a parser
+pub struct Outer(pub Stub);
+impl Parser<In, u8> for Outer {
+    type Output = Stub;
+    type Error = E;
+    fn parse(&mut self, input: &mut In) -> Result<Stub, E> {
+        self.0.run(input).map(|v| Stub { id: 2, backtracking: v % 2 == 0, ctx: 0 })
+    }
+    fn set_context(&mut self, ctx: &u8) {
+        self.0.ctx = *ctx;
+    }
+}
+
+//# harness flatten_contract tier=quick label=complete props=C20 fn=rusty_pc/src/flatten.rs::FlattenParser::parse
+harness!(flatten_contract, 2, {
+    let mut input = In::any();
+    let p0 = input.pos;
+    let mut p = Outer(Stub::any_bt(1)).flatten::<u8>();
+    let r = p.parse(&mut input);
+    common(&input, p0, &r);
+    let o = input.log[0];
+    assert!(o.who == 1 && o.start == p0);
+    if o.out != OK {
+        assert!(input.n == 1 && r == Err(E { fatal: o.out == FATAL, tag: o.val }));
+    } else {
+        let i = input.log[1];
+        assert!(input.n == 2 && i.who == 2 && i.start == o.end, "the produced parser runs where the outer one ended");
+        match i.out {
+            OK => assert!(r == Ok(i.val) && input.pos == i.end),
+            _ => assert!(r == Err(E { fatal: i.out == FATAL, tag: i.val })),
+        }
+    }
+    reach!(r.is_ok());
+});
+
+//# harness context_plumbing tier=quick label=complete props=C20 fn=rusty_pc/src/no_context.rs::NoContextParser,rusty_pc/src/map_ctx.rs::MapCtxParser,rusty_pc/src/boxed.rs::BoxedParser
+harness!(context_plumbing, 2, {
+    let mut input = In::any();
+    let p0 = input.pos;
+    let which = vs::choice(3);
+    let ctx = vs::u8();
+    vs::assume(ctx != 0 && ctx < 100);
+    let r = match which {
+        0 => {
+            let mut p = Stub::any_bt(1).no_context::<u16>();
+            p.set_context(&(ctx as u16));
+            p.parse(&mut input)
+        }
+        1 => {
+            let mut p = Stub::any_bt(1).map_ctx(|c: &u16| (*c as u8) + 1);
+            p.set_context(&(ctx as u16));
+            p.parse(&mut input)
+        }
+        _ => {
+            let mut p = Stub::any_bt(1).boxed();
+            p.set_context(&ctx);
+            p.parse(&mut input)
+        }
+    };
+    common(&input, p0, &r);
+    let c = input.log[0];
+    assert!(input.n == 1 && c.start == p0);
+    // result and position are exactly the wrapped parser's
+    match c.out {
+        OK => assert!(r == Ok(c.val) && input.pos == c.end),
+        _ => assert!(r == Err(E { fatal: c.out == FATAL, tag: c.val }) && input.pos == c.end),
+    }
+    match which {
+        0 => assert!(c.ctx == 0, "no_context stops the context"),
+        1 => assert!(c.ctx == ctx + 1, "map_ctx projects the context"),
+        _ => assert!(c.ctx == ctx, "boxed forwards the context"),
+    }
+    reach!(which == 1 && r.is_ok());
+});
+
+//# harness lazy_contract tier=quick label=complete props=C20 fn=rusty_pc/src/lazy.rs::LazyParser
+harness!(lazy_contract, 2, {
+    let mut input = In::any();
+    let p0 = input.pos;
+    let made = std::cell::Cell::new(0u8);
+    let bt = vs::bool();
+    let mut p = lazy(|| {
+        made.set(made.get() + 1);
+        stub(1, bt)
+    });
+    let r1 = p.parse(&mut input);
+    common(&input, p0, &r1);
+    let c = input.log[0];
+    assert!(input.n == 1 && c.start == p0);
+    match c.out {
+        OK => assert!(r1 == Ok(c.val) && input.pos == c.end),
+        _ => assert!(r1 == Err(E { fatal: c.out == FATAL, tag: c.val })),
+    }
+    if c.out != FATAL {
+        let p1 = input.pos;
+        let r2 = p.parse(&mut input);
+        assert!(input.n == 2 && input.log[1].start == p1);
+        assert!(made.get() == 1, "the factory runs once");
+    }
+    reach!(made.get() == 1 && input.n == 2);
+});
+
+//# harness iif_ctx_contract tier=quick label=complete props=C20 fn=rusty_pc/src/iif_ctx.rs::IifCtxParser::parse
+harness!(iif_ctx_contract, 2, {
+    let mut input = In::any();
+    let p0 = input.pos;
+    let flag = vs::bool();
+    let mut p = IifCtxParser::new::<In>(Stub0(Stub::any_bt(1)), Stub0(Stub::any_bt(2)));
+    p.set_context(&flag);
+    let r = p.parse(&mut input);
+    common(&input, p0, &r);
+    let c = input.log[0];
+    assert!(input.n == 1 && c.start == p0);
+    assert!(c.who == if flag { 1 } else { 2 }, "true selects the left parser, false the right one");
+    match c.out {
+        OK => assert!(r == Ok(c.val) && input.pos == c.end),
+        _ => assert!(r == Err(E { fatal: c.out == FATAL, tag: c.val })),
+    }
+    reach!(!flag && r.is_ok());
+});
+
+//# harness suppliers_contract tier=quick label=complete props=C20 fn=rusty_pc/src/supplier.rs::SupplierParser,rusty_pc/src/ctx.rs::CtxParser
+harness!(suppliers_contract, 2, {
+    let mut input = In::any();
+    let p0 = input.pos;
+    let v = vs::u8();
+    let fatal = vs::bool();
+    let r: Result<u8, E> = Parser::<In, u8>::parse(&mut supplier(|| v), &mut input);
+    assert!(r == Ok(v) && input.pos == p0, "supplier succeeds without consuming");
+    let r: Result<u8, E> = Parser::<In, u8>::parse(&mut err_supplier(|| E { fatal, tag: v }), &mut input);
+    assert!(r == Err(E { fatal, tag: v }) && input.pos == p0, "err_supplier fails without consuming");
+    let mut cp = ctx_parser::<In, u8, E>();
+    cp.set_context(&v);
+    let r = cp.parse(&mut input);
+    assert!(r == Ok(v) && input.pos == p0, "ctx_parser yields the stored context without consuming");
+    assert!(input.n == 0 && input.reads == 0);
+    reach!(fatal);
+});
+
+// ---------------------------------------------------------------------------------------------
+// primitives that read the input directly
+// ---------------------------------------------------------------------------------------------
+//# harness read_prims tier=quick label=complete props=C20,C07 fn=rusty_pc/src/top_level.rs::ReadParser::parse,rusty_pc/src/top_level.rs::PeekParser::parse,rusty_pc/src/top_level.rs::one_p,rusty_pc/src/top_level.rs::one_of_p
+harness!(read_prims, 4, {
+    // `In::read`/`In::peek` assert !eof: a primitive that reads at end of input fails here
+    let mut input = In::any();
+    let p0 = input.pos;
+    let at_end = p0 >= input.len;
+    let cur = (p0 % 251) as u8;
+    let which = vs::choice(4);
+    let needle = vs::u8();
+    let r: Result<u8, E> = match which {
+        0 => read_p().parse(&mut input),
+        1 => peek_p().parse(&mut input),
+        2 => one_p(needle).parse(&mut input),
+        _ => {
+            let needles = [needle, 3u8];
+            let mut p = one_of_p(&needles);
+            p.parse(&mut input)
+        }
+    };
+    assert!(!is_fatal(&r));
+    if at_end {
+        assert!(r == Err(E::default()) && input.pos == p0, "soft default error at end of input, nothing consumed");
+    } else {
+        match which {
+            0 => assert!(r == Ok(cur) && input.pos == p0 + 1),
+            1 => assert!(r == Ok(cur) && input.pos == p0, "peek_p does not consume"),
+            2 => {
+                if cur == needle {
+                    assert!(r == Ok(cur) && input.pos == p0 + 1);
+                } else {
+                    assert!(r == Err(E::default()) && input.pos == p0, "mismatch: soft error, nothing consumed");
+                }
+            }
+            _ => {
+                if cur == needle || cur == 3 {
+                    assert!(r == Ok(cur) && input.pos == p0 + 1);
+                } else {
+                    assert!(r == Err(E::default()) && input.pos == p0);
+                }
+            }
+        }
+    }
+    reach!(at_end);
+    reach!(which == 2 && r.is_ok());
+    reach!(which == 3 && is_soft(&r) && !at_end);
+});
+
+// ---------------------------------------------------------------------------------------------
+// bounded companions of the Verus units for the loops (counterexample search / cross-check)
+// ---------------------------------------------------------------------------------------------
+//# harness many_bounded tier=quick label=bounded(iterations<=4) props=C20 fn=rusty_pc/src/many.rs::ManyParser::parse
+harness!(many_bounded, 10, {
+    let mut input = In::any();
+    input.cap = 5;
+    let p0 = input.pos;
+    let allow_none = vs::bool();
+    let mut p = if allow_none { Stub::new(1).zero_or_more() } else { Stub::new(1).one_or_more() };
+    // bound: the element parser is called at most 5 times
+    let r = p.parse(&mut input);
+    common(&input, p0, &r);
+    // every call starts where the previous one ended; all but the last succeeded
+    let mut k = 0;
+    while k < 5 {
+        if k < input.n {
+            let c = input.log[k];
+            assert!(c.start == if k == 0 { p0 } else { input.log[k - 1].end });
+            if k + 1 < input.n {
+                assert!(c.out == OK, "repetition continues only after a success");
+            }
+        }
+        k += 1;
+    }
+    let last = input.log[input.n - 1];
+    assert!(last.out != OK, "repetition stops only at a failure: the run of successes is maximal");
+    if last.out == FATAL {
+        assert!(r == Err(E { fatal: true, tag: last.val }));
+    } else if input.n == 1 {
+        if allow_none {
+            assert!(r == Ok(Vec::new()) && input.pos == p0);
+        } else {
+            assert!(r == Err(E { fatal: false, tag: last.val }) && input.pos == p0, "soft failure under repetition leaves the input where it started");
+        }
+    } else {
+        match &r {
+            Ok(v) => {
+                assert!(v.len() == input.n - 1, "exactly the successes are returned");
+                let mut j = 0;
+                while j < 4 {
+                    if j < v.len() {
+                        assert!(v[j] == input.log[j].val);
+                    }
+                    j += 1;
+                }
+                assert!(input.pos == last.end);
+            }
+            Err(_) => assert!(false, "a soft failure after at least one success ends the run successfully"),
+        }
+    }
+    reach!(r.is_ok() && input.n == 3);
+    reach!(is_soft(&r));
+    std::mem::forget(r);
+});
+
+//# harness delimited_bounded tier=quick label=bounded(calls<=6) props=C20 fn=rusty_pc/src/delimited.rs::DelimitedParser::parse
+harness!(delimited_bounded, 10, {
+    let mut input = In::any();
+    input.cap = 6;
+    let p0 = input.pos;
+    let trailing = E { fatal: true, tag: 99 };
+    let mut p = Stub::new(1).delimited_by(Stub::new(2), trailing);
+    let r = p.parse(&mut input);
+    common(&input, p0, &r);
+    // calls alternate element, delimiter, element, ...
+    let mut k = 0;
+    let mut elems = 0usize;
+    while k < 6 {
+        if k < input.n {
+            let c = input.log[k];
+            assert!(c.who == if k % 2 == 0 { 1 } else { 2 }, "element and delimiter alternate");
+            if c.who == 1 && c.out == OK {
+                elems += 1;
+            }
+        }
+        k += 1;
+    }
+    let last = input.log[input.n - 1];
+    if last.out == FATAL {
+        assert!(r == Err(E { fatal: true, tag: last.val }));
+    } else {
+        // find what was parsed last successfully
+        let mut last_ok_who = 0u8;
+        let mut j = 0;
+        while j < 6 {
+            if j < input.n && input.log[j].out == OK {
+                last_ok_who = input.log[j].who;
+            }
+            j += 1;
+        }
+        match last_ok_who {
+            0 => assert!(r == Err(E::default()), "nothing parsed: soft failure"),
+            1 => match &r {
+                Ok(v) => assert!(v.len() == elems, "one entry per element"),
+                Err(_) => assert!(false, "a list ending in an element is accepted"),
+            },
+            _ => assert!(r == Err(trailing), "a trailing delimiter is rejected fatally"),
+        }
+        if last_ok_who == 0 {
+            assert!(input.pos == p0);
+        }
+    }
+    reach!(r.is_ok() && elems == 2);
+    reach!(r == Err(trailing));
+    std::mem::forget(r);
 });
